@@ -858,7 +858,7 @@ def _x_constant_digits(e, variant):
     ufl = e["ufl"]
     k = {"a": (8, 9), "b": (9, 10)}[variant]
     c1, c2 = ufl.Constant(e["m"], count=k[0]), ufl.Constant(e["m"], count=k[1])
-    return ufl.sin(c1) * ufl.cos(c2) * ufl.dx(domain=e["m"])
+    return c1 * c2 * (c2 + 2) * ufl.dx(domain=e["m"])
 
 
 def _x_mesh_id_permuted(e, variant):
@@ -1105,7 +1105,7 @@ def run(ctx, args):
     t0 = time.time()
     try:
         if quick:
-            jobs = [Job(u, 1, u in ("index", "bfo", "md")) for u in UNIVERSES]
+            jobs = [Job(u, 1, u in ("index", "cond")) for u in UNIVERSES]
         else:
             jobs = [Job(u, 2, True) for u in UNIVERSES]
             seeds = random_programs(ctx.seed, 32)
